@@ -627,7 +627,7 @@ def toml_dumps(cfg: Dict[str, Any]) -> str:
 
 
 EXTS = [".graphql", ".graphqls", ".gql"]
-DIRS = ["", "types", "types/inputs", "z_last", "a_first/nested", "Upper", ".hidden_dir", "with space"]
+DIRS = ["", "types", "types/inputs", "z_last", "a_first/nested", "Upper", ".hidden_dir", "with space", "x/y/z/deep"]
 FNAMES = ["schema", "b", "a", "zz", "Types", "10", "2", "common", "_x", ".dotfile", "two.parts"]
 
 
